@@ -18,7 +18,7 @@ UNI = CLI.UNI
 
 
 def run(V, tier, want, cfg="Layouts_cli.cfg"):
-    """want: subset of {"c01", "c02", "c04", "c05"}; returns number of sessions"""
+    """want: subset of {"c01", "c02", "c04", "c05", "c08"}; returns number of sessions"""
     meta = L.load_cases(cfg)
     C.build_server()
     by_shape = {}
@@ -77,6 +77,17 @@ def run(V, tier, want, cfg="Layouts_cli.cfg"):
                     inc = srv.request("callHierarchy/incomingCalls", {"item": pc[0]})
                     rec["incoming"] = len(inc or [])
                 out["positions"].append(rec)
+            if want & {"c04", "c05", "c08"}:
+                # workspace/symbol and documentSymbol: one entry per definition of the workspace's own files, each exactly once
+                ws_syms = srv.request("workspace/symbol", {"query": ""}) or []
+                out["ws_symbols"] = sorted((os.path.relpath(lsp.uri_to_path(x["location"]["uri"]), ws), x["location"]["range"]["start"]["line"] + 1, x["name"])
+                                           for x in ws_syms)
+                out["doc_symbols"] = {}
+                for slot, r in ctx.files.items():
+                    if slot in ("tp", "pl", "tpi"):
+                        continue
+                    ds = srv.doc_request("textDocument/documentSymbol", CLI.disk_path(root, slot)) or []
+                    out["doc_symbols"][slot] = sorted((x["selectionRange"]["start"]["line"] + 1, x["name"]) for x in ds)
             if "c05" in want:
                 # inlay type hints: the type shown next to a parameter is the return type of ONE definition
                 hints = {}
@@ -221,6 +232,19 @@ def run(V, tier, want, cfg="Layouts_cli.cfg"):
                         V.violation(dict(e2, lens=title, references=refs), "code lens usage count is smaller than the reference list")
                 if "incoming" in rec and rec["incoming"] > (int(title.split()[0]) if title else 10 ** 6):
                     V.violation(dict(e2, lens=title, incoming=rec["incoming"]), "incoming calls exceed the code lens usage count")
+        if "ws_symbols" in r:
+            V.count()
+            own = sorted((CLI.rel_of_slot(sl), ctx.files[sl].item_line[idx], it["name"]) for sl, idx, it in ctx.all_defs()
+                         if sl not in ("tp", "pl", "tpi", "tp2"))
+            got = [x for x in r["ws_symbols"] if not x[0].startswith((".venv", ".."))]
+            if got != own:
+                V.violation(dict(ex, workspace_symbols=got, definitions=own),
+                            "workspace/symbol does not list every definition of the workspace's own files exactly once")
+            for sl, lst in r["doc_symbols"].items():
+                want_l = sorted((ctx.files[sl].item_line[idx], it["name"]) for s2, idx, it in ctx.all_defs() if s2 == sl)
+                if lst != want_l:
+                    V.violation(dict(ex, document=CLI.rel_of_slot(sl), document_symbols=lst, definitions=want_l),
+                                "documentSymbol does not list every fixture the document declares exactly once")
         if "c04" in want:
             # the three COUNTS of C04 per definition: code lens, incoming calls, and the usages that navigate to it
             nav = {}
